@@ -238,3 +238,73 @@ Theorem C12_write_through_view_refuted :
     describes meta m s /\ ~ describes meta m (fst (caller_update f s (get_view s p))).
 Proof. exact view_update_breaks_metadata_refuted. Qed.
 Print Assumptions C12_write_through_view_refuted.
+
+(* ---------------- degenerate patches (stored radius 0) in the guard ---------------- *)
+(* a zero radius makes every displacement large: refused whatever rtol is *)
+Theorem C12_zero_radius_displaced_refused : forall d r rtol, r == 0 -> 0 < d -> patch_refused d r rtol = true.
+Proof. exact patch_refused_zero_radius. Qed.
+Print Assumptions C12_zero_radius_displaced_refused.
+
+Theorem C12_zero_radius_coinciding_accepted : forall d r rtol, d == 0 -> r == 0 -> patch_refused d r rtol = false.
+Proof. exact patch_accepted_coinciding. Qed.
+Print Assumptions C12_zero_radius_coinciding_accepted.
+
+(* distance > rtol * radius is what the float expression distance / radius > rtol decides (x/0 = inf, 0/0 = nan) *)
+Theorem C12_division_free_form_is_the_float_test : forall d r rtol,
+  0 <= d -> 0 <= r -> patch_refused_ieee d r rtol = patch_refused d r rtol.
+Proof. exact patch_refused_ieee_eq. Qed.
+Print Assumptions C12_division_free_form_is_the_float_test.
+
+Theorem C12_guard_refuses_zero_radius : forall ids1 ids2 dists radii rtol d r,
+  In (d, r) (combine dists radii) -> r == 0 -> 0 < d -> guard ids1 ids2 dists radii rtol = false.
+Proof. exact guard_refuses_zero_radius. Qed.
+Print Assumptions C12_guard_refuses_zero_radius.
+
+Theorem C12_guard_many_zero_radius : forall cats dt rtol,
+  guard_many cats dt rtol = true -> guard_zero_ok cats dt = true.
+Proof. exact guard_many_zero_ok. Qed.
+Print Assumptions C12_guard_many_zero_radius.
+
+Theorem C12_guardd_case_sound : forall cats dt,
+  guard_many cats dt (1#2) = true -> c12_guardd_case cats dt true = c12_guardn_case cats dt true.
+Proof. exact guardd_case_sound. Qed.
+Print Assumptions C12_guardd_case_sound.
+
+(* the quotient that is 0 when the divisor is 0: the same on proper patches, exempts every zero-radius patch, and
+   lets through centres farther apart than the radius *)
+Theorem C12_zero_defined_quotient_same_on_proper_patches : forall d r rtol,
+  0 < r -> patch_refused_div0 d r rtol = patch_refused d r rtol.
+Proof. exact patch_refused_div0_proper. Qed.
+Print Assumptions C12_zero_defined_quotient_same_on_proper_patches.
+
+Theorem C12_zero_defined_quotient_exempts_zero_radius : forall d r rtol,
+  r == 0 -> 0 <= rtol -> patch_refused_div0 d r rtol = false.
+Proof. exact patch_refused_div0_zero_radius. Qed.
+Print Assumptions C12_zero_defined_quotient_exempts_zero_radius.
+
+Theorem C12_zero_defined_quotient_is_Qdiv : forall d r, qdiv0 d r == d / r.
+Proof. exact qdiv0_is_Qdiv. Qed.
+Print Assumptions C12_zero_defined_quotient_is_Qdiv.
+
+Theorem C12_zero_defined_quotient_refuted :
+  exists (dists radii : list Q) (d r : Q),
+    In (d, r) (combine dists radii) /\ 0 <= r /\ r < d /\
+    within_div0 (1#2) dists radii = true /\ within (1#2) dists radii = false /\ within 1 dists radii = false.
+Proof. exact quotient_zero_refuted. Qed.
+Print Assumptions C12_zero_defined_quotient_refuted.
+
+Example C12_degenerate_concrete :
+  patch_refused (1#1000000) 0 (1#2) = true /\ patch_refused 0 0 (1#2) = false /\
+  patch_refused_ieee (1#1000000) 0 (1#2) = true /\ patch_refused_ieee 0 0 (1#2) = false /\
+  patch_refused_div0 (7#10) 0 (1#2) = false /\ patch_refused_div0 (7#10) 1 (1#2) = true /\
+  (* autocorrelate(data, random): the data catalog (most records) has a single-object patch 1 with radius 0;
+     patch 1 of the partner lies 7/10 away, patch 0 is aligned *)
+  let cats := [ {| g_ids := [0; 1]%nat; g_nrec := [60; 1]%nat; g_radii := [1#50; 0] |};
+                {| g_ids := [0; 1]%nat; g_nrec := [30; 30]%nat; g_radii := [1#50; 1#50] |} ] in
+  let dt := [ [ []; [1#1000; 7#10] ]; [ [1#1000; 7#10]; [] ] ] in
+  let aligned := [ [ []; [1#1000; 0] ]; [ [1#1000; 0]; [] ] ] in
+  check_order g_nrec cats = [0; 1]%nat /\ guard_many cats dt (1#2) = false /\ guard_zero_ok cats dt = false /\
+  c12_guardd_case cats dt true = 23%nat /\ c12_guardd_case cats dt false = 0%nat /\
+  guard_many cats aligned (1#2) = true /\ c12_guardd_case cats aligned true = 0%nat /\
+  c12_guardd_case cats aligned false = 1%nat.
+Proof. vm_compute. repeat split; reflexivity. Qed.
